@@ -284,6 +284,7 @@ pub fn run(outdir: &Path, tier: &str, seed: u64, shards: usize, replay: Option<S
         cases,
         checkers: vec!["corr".into(), "heck".into(), "prop_wire".into(), "prop_ident".into(), "known_bad_case_ident".into()],
         extra_imports: vec!["Heck".into(), "Naming".into()],
+        preludes: vec![],
     };
     cs.write(
         outdir,
